@@ -18,7 +18,9 @@ if __name__ == "__main__":
         print("REPRODUCED: harness raised", type(_e).__name__, str(_e)[:300], "on", _args)
         sys.exit(1)
     if not _ok:
-        print("REPRODUCED: property false on", _args, {diag})
+        import json as _json
+        _d = {diagval}
+        print("REPRODUCED: property false on", _args, "diag:", _d, "DIAGJSON=" + _json.dumps(_d, default=str) if isinstance(_d, dict) else "")
         sys.exit(1)
     print("HOLDS on", _args)
     sys.exit(0)
@@ -26,8 +28,8 @@ if __name__ == "__main__":
 
 
 def make_replay(prop: str, spec: Spec, cex_repr: str) -> str:
-    diag = '"diag:", DIAG(**_args)' if "def DIAG(" in spec.src else '""'
-    body = spec.src + REPLAY_TAIL.format(args=cex_repr, diag=diag)
+    diagval = 'DIAG(**_args)' if "def DIAG(" in spec.src else '""'
+    body = spec.src + REPLAY_TAIL.format(args=cex_repr, diagval=diagval)
     return env.write_replay(prop, spec.name, body)
 
 
@@ -66,7 +68,11 @@ def run_specs(rep: Report, specs: List[Spec],
                     res.verdict = REFUTED
                     res.replay = path
                     res.detail = line[:300]
-                    rep.classify_refutation(res, matcher(spec, r["cex"]), what(spec, r["cex"]))
+                    try:
+                        mt = matcher(spec, r["cex"], line)
+                    except TypeError:
+                        mt = matcher(spec, r["cex"])
+                    rep.classify_refutation(res, mt, what(spec, r["cex"]))
                 else:
                     rep.nonrepro += 1
                     res.detail = f"non-reproducing counterexample ({line[:200]}); engine said: {r['message'][:200]}"
